@@ -55,6 +55,21 @@ Theorem c09_accepted_iff : forall c s r, signer s = None ->
    i_tls r = true /\ i_chain r = true /\ exists p, i_field r = Some p /\ all_good c p = true).
 Proof. exact accepted_iff. Qed.
 
+(* The auto-unseal path (unseal.go tryAwsUnseal: the secret stored in the cloud secret manager is
+   handed to unsealCA directly, there is no TLS / client-certificate gate on that path): an attempt that
+   returns an error leaves the state as it was, and the signer appears only if the secret decrypts
+   every configured key file and every file loads.  (Model-level: the secret manager is not reachable
+   offline, so this path has no correspondence run of its own; unsealCA itself is the function the
+   injection sequences exercise.) *)
+Theorem c09_auto_unseal_refused_unchanged : forall c s p,
+  snd (unseal_ca c s p) = false -> fst (unseal_ca c s p) = s.
+Proof. exact unseal_ca_error_unchanged. Qed.
+
+Theorem c09_auto_unseal_only_right_pass : forall c s p,
+  signer s = None -> signer (fst (unseal_ca c s p)) <> None ->
+  snd (unseal_ca c s p) = true /\ all_good c p = true /\ signer (fst (unseal_ca c s p)) = Some (main_key c).
+Proof. exact auto_unseal_only_right_pass. Qed.
+
 (* Before the repair (loadSignersFromPemData assigned the Ed25519 signer and its CA certificate
    before looking at the main key) a refused injection changed the state: right passphrase, good
    Ed25519 file, main file holding a key of the wrong type -> 400, yet Ed25519Signer set and a CA
